@@ -135,7 +135,7 @@ pub fn run(env: &Env) -> Report {
     let sets = settings16();
     let typeable: Vec<char> = TYPEABLE.chars().collect();
     // work units: (setting index, kind, part)
-    #[derive(Clone)] enum Kind { Short(usize, usize), AcKeys(usize, usize), Emoji(usize, usize), Guided(usize), Suffix(usize), AllSuffixes(usize, usize), JoinClasses(usize, usize), UserOver(usize), Long }
+    #[derive(Clone)] enum Kind { Short(usize, usize), AcKeys(usize, usize), Emoji(usize, usize), Guided(usize), Suffix(usize), AllSuffixes(usize, usize), JoinClasses(usize, usize), UserOver(usize), FarHits, Long }
     let mut units: Vec<(usize, Kind)> = vec![];
     let short_sets: Vec<usize> = if env.quick() { vec![(seed as usize) % 16, (seed as usize * 7 + 5) % 16] } else { (0..16).collect() };
     for &si in &short_sets { for g in 0..8 { units.push((si, Kind::Short(g, 8))); } }
@@ -147,6 +147,7 @@ pub fn run(env: &Env) -> Report {
     for g in 0..8 { units.push(((seed as usize + g * 5 + 1) % 16, Kind::JoinClasses(g, 8))); }
     // user auto-correct entries whose KEY is also a bundled key: the user's entry is the one that counts (settings with a user file)
     for k in 0..(if env.quick() { 4 } else { 16 }) { let si = (0..16).map(|j| (seed as usize + k * 3 + j) % 16).find(|&j| sets[j].1).unwrap_or(8); units.push((si, Kind::UserOver(k))); }
+    units.push(((seed as usize) % 16, Kind::FarHits)); units.push(((seed as usize + 9) % 16, Kind::FarHits));
     units.push((0, Kind::Long)); units.push((1, Kind::Long));
     let reps = par_map(units.len(), |ui| {
         let (si, kind) = &units[ui];
@@ -267,6 +268,17 @@ pub fn run(env: &Env) -> Report {
                 s.update(&mut t, PHONETIC, opts);
                 let none: HashMap<String, String> = HashMap::new();
                 for key in ks.iter().take(8) { run_text_ua(&mut s, &mut t, &mut rep, key, &none); let txt = format!("{}er", key); run_text_ua(&mut s, &mut t, &mut rep, &txt, &none); rep.count("user-entry-after-removal-typed"); }
+            }
+            Kind::FarHits => {
+                // the rank is a number computed from the edit distance: the words whose dictionary hits lie FARTHEST from the transliteration
+                // (found here with the harness's own look-up and distance) are where that arithmetic is exercised beyond the first few values
+                let mut far: Vec<(usize, &String)> = vec![];
+                for k in pools.ac_keys.iter().filter(|k| k.chars().all(|c| c.is_ascii_alphabetic()) && k.len() >= 3) {
+                    let tr = env.data.phonetic.convert(k);
+                    if let Some(hits) = env.data.dict_phonetic(k) { if hits.len() > 1 { let mx = hits.iter().map(|h| edit_distance::edit_distance(&tr, h)).max().unwrap_or(0); far.push((mx, k)); } }
+                }
+                far.sort_by(|a, b| b.0.cmp(&a.0).then(a.1.cmp(b.1)));
+                for (mx, k) in far.iter().take(if env.quick() { 24 } else { 120 }) { run_text_ua(&mut s, &mut t, &mut rep, k, &uac); rep.count(&format!("far-hit-word-distance-{}", mx)); }
             }
             Kind::Long => {
                 // long-distance probes: repeated optional-vowel letters (rank arithmetic far from the dictionary)
